@@ -7,7 +7,7 @@
    fragment of the property; exactly_balanced_is_stable). *)
 From LedgerV Require Import Base.Prelude Base.Round Model.Amount Model.Xact Model.Journal
   Proofs.AmountProofs Proofs.XactProofs Proofs.JournalProofs Proofs.CompareProofs
-  Model.AmountText Proofs.AmountTextProofs.
+  Model.AmountText Proofs.AmountTextProofs Gen.SourceGuards.
 From Coq Require Import Permutation.
 Local Open Scope Q_scope.
 
@@ -114,3 +114,10 @@ Proof.
   split; [eexists; vm_compute; reflexivity | vm_compute; reflexivity].
 Qed.
 Print Assumptions acceptance_order_dependence_refuted.
+
+(* the tie to the source by translation: the lines of /repo/src this model transcribes (harness/translators/src_guards.py
+   lists them, with the function each is looked for in) are still there, in the same order, in the source as it is NOW -
+   coq/Gen/SourceGuards.v is regenerated on every run and names the guards that are false *)
+Theorem model_transcribes_current_source : forallb (fun b => b) src_guards_C08 = true.
+Proof. vm_compute. reflexivity. Qed.
+Print Assumptions model_transcribes_current_source.
